@@ -718,9 +718,9 @@ pub fn run_check(e: &Entry, tier: Tier, seed: u64) -> RunOutcome {
     let ncpu = std::thread::available_parallelism()
         .map(|n| n.get())
         .unwrap_or(4);
-    // at most `ncpu` workers at a time; a worker gets at most VERIF_SHARD_CASES cases (default 60 000),
+    // at most `ncpu` workers at a time; a worker gets at most VERIF_SHARD_CASES cases (default 20 000),
     // which bounds what the analyzer's never-freed graphs can pile up in one process
-    let cap: usize = std::env::var("VERIF_SHARD_CASES").ok().and_then(|s| s.parse().ok()).unwrap_or(60_000);
+    let cap: usize = std::env::var("VERIF_SHARD_CASES").ok().and_then(|s| s.parse().ok()).unwrap_or(20_000);
     let width = ncpu.min(e.max_shards).max(1);
     let shards = width.max((cases as usize).div_ceil(cap.max(1))).min((cases as usize).max(1));
     let per = cases / shards as u32;
